@@ -6,7 +6,6 @@ package main
 import (
 	"fmt"
 	"os"
-	"sort"
 	"time"
 
 	"verif/lib/progen"
@@ -14,32 +13,31 @@ import (
 )
 
 func main() {
-	p := progen.Dataflow(progen.DataflowParams{Kind: "arr", Src: "gen", Size: 2, Cons: "sums"})
+	p := progen.Dataflow(progen.DataflowParams{Kind: "arr", Src: "gen", Size: 2, Cons: "sums", Extra: "chain"})
+	if len(os.Args) > 1 && os.Args[1] == "sarr" {
+		p = progen.Dataflow(progen.DataflowParams{Kind: "sarr", Src: "gen", Size: 2, Cons: "id", Map: "top"})
+	}
+	p.Py = true
 	ref, _ := progen.Interpret(p)
-	_ = ref
-	kind := os.Args[1]
-	job := os.Args[2]
 	t0 := time.Now()
-	opts := psx.BOptions{Fault: &psx.Fault{Job: job, Kind: kind}, KeepDir: true}
+	opts := psx.BOptions{KeepDir: true}
 	if len(os.Args) > 3 {
-		fmt.Sscan(os.Args[3], &opts.AutoRetry)
-		opts.Fault.Times = 1
+		opts.Fault = &psx.Fault{Job: os.Args[3], Kind: os.Args[2]}
 	}
 	r := psx.RunB(p, opts)
-	fmt.Printf("exit=%d sig=%s wall=%v obs=%d lock=%v\n", r.Exit, r.Signal, time.Since(t0), len(r.Obs), r.Lock)
+	res := psx.AsResult(p, r)
+	fmt.Printf("exit=%d wall=%v obs=%d state=%s\n", r.Exit, time.Since(t0), len(r.Obs), res.State)
 	for _, o := range r.Obs {
 		fmt.Println("  ", o.Key, o.How, o.Fault)
 	}
-	fmt.Println(r.Console)
-	sort.Strings(r.Completed)
-	fmt.Println(r.Completed)
-	fq, log := psx.ParseFailure(r.Console)
-	fmt.Println("PARSED:", fq, "|", log)
-	// restart
-	r2 := psx.RunB(p, psx.BOptions{Dir: r.Dir})
-	fmt.Printf("restart exit=%d obs=%d\n%s\n%s\n", r2.Exit, len(r2.Obs), psx.ConsoleTail(r2.Console, 6), r2.TopOuts)
-	for _, o := range r2.Obs {
-		fmt.Println("  ", o.Key, o.How, o.Fault)
+	for _, v := range psx.CheckDataflow(ref, res) {
+		fmt.Println("  DF:", v)
 	}
-	r.Cleanup()
+	for _, v := range psx.CheckExactlyOnce(ref, res) {
+		fmt.Println("  X1:", v)
+	}
+	if r.Exit != 0 || os.Getenv("SHOW") != "" {
+		fmt.Println(psx.ConsoleTail(r.Console, 25))
+	}
+	fmt.Println(r.Dir)
 }
